@@ -54,11 +54,59 @@ def tstr(t):
     return ';'.join(str(int(x)) for x in t)
 
 
+class Aliasing(Exception):
+    pass
+
+
+def _noncontig(a):
+    """the same values as a non-contiguous view (every second element of a larger buffer)"""
+    a = np.asarray(a)
+    big = np.zeros(tuple(2 * d for d in a.shape), dtype=a.dtype)
+    view = big[tuple(slice(None, None, 2) for _ in a.shape)]
+    view[...] = a
+    return view
+
+
+def _same(r1, r2):
+    if isinstance(r1, (tuple, list)):
+        return isinstance(r2, (tuple, list)) and len(r1) == len(r2) and all(_same(a, b) for a, b in zip(r1, r2))
+    return np.array_equal(np.asarray(r1), np.asarray(r2))
+
+
+def pure_call(f, *arrays, alt_dtypes=()):
+    """call f(*arrays) the way a careful user may: the arguments must come back bit-identical (no aliasing), a second call on the
+    very same objects and a call on non-contiguous views must give the same result, and integer dtypes the clean tree accepts
+    must give the same values.  Violations raise `Aliasing`, which the callers turn into a reported failure with the op as input."""
+    arrays = [np.array(a) for a in arrays]
+    snaps = [(a.copy(), a.dtype, a.shape) for a in arrays]
+    r1 = f(*arrays)
+    for i, (a, (s, dt, sh)) in enumerate(zip(arrays, snaps)):
+        if a.dtype != dt or a.shape != sh or not np.array_equal(a, s):
+            raise Aliasing(f'argument {i} was modified in place: {s.tolist()} -> {a.tolist()}')
+    r2 = f(*arrays)
+    if not _same(r1, r2):
+        raise Aliasing('second call on the same argument objects returns a different result')
+    r3 = f(*[_noncontig(a) for a in arrays])
+    if not _same(r1, r3):
+        raise Aliasing('non-contiguous views of the same values give a different result')
+    for dt in alt_dtypes:
+        r4 = f(*[a.astype(dt) for a in arrays])
+        if not _same(np.asarray(r1).astype(np.int64) if not isinstance(r1, (tuple, list)) else [np.asarray(x).astype(np.int64) for x in r1],
+                     np.asarray(r4).astype(np.int64) if not isinstance(r4, (tuple, list)) else [np.asarray(x).astype(np.int64) for x in r4]):
+            raise Aliasing(f'dtype {np.dtype(dt).name} gives a different result than uint8')
+    return r1
+
+
+INT_DTYPES = (np.int64, np.int32, np.uint16)   # accepted by get_inner_product / transvection / find_transvection / inverse on the clean tree
+
+
 def guarded(f):
     try:
         return f()
     except AssertionError:
         return 'error:assert'
+    except Aliasing as e:
+        return 'aliasing: ' + str(e)
     except (ValueError, TypeError, IndexError, KeyError, OverflowError) as e:
         return 'error:' + type(e).__name__
 
@@ -83,17 +131,28 @@ def impl_op(op):
     k = t[1]
     n = int(t[2])
     if k == 'ip':
-        return guarded(lambda: str(int(sp.get_inner_product(varr(t[3]), varr(t[4])))))
+        return guarded(lambda: str(int(pure_call(sp.get_inner_product, varr(t[3]), varr(t[4]), alt_dtypes=INT_DTYPES))))
     if k == 'tv':
         hs = [] if t[4] == '-' else [varr(h) for h in t[4].split(';')]
-        return guarded(lambda: vstr(sp.transvection(varr(t[3]), *hs)))
+        return guarded(lambda: vstr(pure_call(sp.transvection, varr(t[3]), *hs, alt_dtypes=INT_DTYPES)))
     if k == 'find':
         def f():
-            r = sp.find_transvection(varr(t[3]), varr(t[4]))
+            r = pure_call(sp.find_transvection, varr(t[3]), varr(t[4]), alt_dtypes=INT_DTYPES)
             return f'{vstr(r[0])} {vstr(r[1])}'
         return guarded(f)
     if k == 'from':
-        return guarded(lambda: mstr(sp.from_int_tuple(tuple(int(x) for x in t[3].split(';')))))
+        def f():
+            tt = tuple(int(x) for x in t[3].split(';'))
+            M = sp.from_int_tuple(tt)
+            # the same tuple given as np.int64 entries / as a list / as an int64 array
+            alts = [list(tt), np.array(tt, dtype=object)]
+            if max(tt) < 2 ** 62:
+                alts.append(tuple(np.int64(x) for x in tt))
+            for alt in alts:
+                if not np.array_equal(sp.from_int_tuple(alt), M):
+                    raise Aliasing('from_int_tuple depends on the integer type / container of the tuple')
+            return mstr(M)
+        return guarded(f)
     if k == 'randsp':
         def f():
             vals = [int(x) for x in t[3].split(';')]
@@ -105,9 +164,20 @@ def impl_op(op):
             return mstr(M)
         return guarded(f)
     if k == 'to':
-        return guarded(lambda: tstr(sp.to_int_tuple(marr(t[3]))))
+        def f():
+            M = marr(t[3])
+            r = pure_call(sp.to_int_tuple, M)
+            # dtype: the clean tree asserts uint8 here; the rejection is part of the tie
+            for dt in (np.int64, np.bool_):
+                try:
+                    sp.to_int_tuple(M.astype(dt))
+                    return f'dtype {np.dtype(dt).name} accepted by to_int_tuple (clean tree asserts uint8)'
+                except AssertionError:
+                    pass
+            return tstr(r)
+        return guarded(f)
     if k == 'inv':
-        return guarded(lambda: mstr(sp.inverse(marr(t[3]))))
+        return guarded(lambda: mstr(pure_call(sp.inverse, marr(t[3]), alt_dtypes=INT_DTYPES)))
     if k == 'issp':
         return guarded(lambda: str(int(is_sp(marr(t[3])))))
     if k == 'mul':
@@ -115,6 +185,12 @@ def impl_op(op):
     if k == 'num':
         def f():
             r = sp.get_number(n, t[3])
+            # the helper is memoised (lru_cache): other sizes / kinds in between, np.int64 size, then the same call again
+            for m, kd in ((40, 'base'), (1, 'order'), (33, 'coset'), (n, 'order'), (n, 'base')):
+                sp.get_number(m, kd)
+            r2 = sp.get_number(np.int64(n), t[3])
+            if (r2 != r) or (type(r2) is not type(r)):
+                raise Aliasing(f'get_number({n},{t[3]}) changes after other calls: {r} -> {r2}')
             return str(int(r)) if t[3] == 'order' else tstr(r)
         return guarded(f)
     return 'bad-op'
@@ -177,6 +253,9 @@ def _job(args):
         ops.append(f'C09 to {n} {ms}')
         back = guarded(lambda: sp.to_int_tuple(M))
         impl.append(back if isinstance(back, str) else tstr(back))
+        if mstr(M) != ms:
+            bad.append((t, 'aliasing', 'to_int_tuple modified its argument in place'))
+            M = marr(ms)
         Mi = M.astype(np.int64)
         if not np.array_equal((Mi @ L @ Mi.T) % 2, L):
             bad.append((t, 'image-symplectic', 'image not symplectic'))
@@ -208,6 +287,15 @@ def tuples_through_both(ctx, n, idxs, procs=1):
         ctx.count(f'from/to n={n}', cnt)
     ctx.nontrivial.add(('tuples', n, len(idxs)))
     return images
+
+
+def report_side_effects(ctx, ops, impl):
+    """aliasing / dtype violations found by `pure_call` are failures of the property's input contract with a concrete input"""
+    for op, out in zip(ops, impl):
+        if out.startswith('aliasing'):
+            ctx.fail('aliasing', f'{op}: {out}', dict(op='side-effect', line=op, observed=out))
+        elif out.startswith('dtype'):
+            ctx.fail('dtype', f'{op}: {out}', dict(op='dtype', line=op, observed=out))
 
 
 def rand_vec(rng, m, nonzero=False):
@@ -265,6 +353,22 @@ def gen_ops(ctx):
                 return ''.join(a)
             v, w = sparse(), sparse()
         ops.append(f'C09 find {n} {v} {w}')
+    # sizes around the machine-word boundary: round trips for n = 31, 32, 33, 40 (2n crosses 64; bases cross 2^63)
+    for n in (31, 32, 33, 40):
+        for i in range(2 if quick else 6):
+            t = rand_tuple(rng, n)
+            if i == 0:
+                t = tuple(b - 1 for b in bases(n))      # the largest digit of every base
+            M = guarded(lambda: sp.from_int_tuple(t))
+            ops.append(f'C09 from {n} {tstr(t)}')
+            if not isinstance(M, str):
+                ops += [f'C09 to {n} {mstr(M)}', f'C09 issp {n} {mstr(M)}', f'C09 inv {n} {mstr(M)}']
+        v, w = rand_vec(rng, 2 * n, True), rand_vec(rng, 2 * n, True)
+        ops += [f'C09 find {n} {v} {w}', f'C09 ip {n} {v} {w}', f'C09 num {n} base', f'C09 num {n} order', f'C09 num {n} coset']
+    # the memoised helper of get_number: small sizes again after the large ones, in both orders
+    for n in (64, 1, 40, 2, 33, 3):
+        for kind in ('order', 'base', 'coset'):
+            ops.append(f'C09 num {n} {kind}')
     # random tuples -> matrices -> back, inverse, membership, products
     mats = []
     for _ in range(150 if quick else 2500):
@@ -325,6 +429,7 @@ def correspondence(ctx):
     model = common.run_model(ops)
     nontriv = lambda op, out: any(c not in '0; -' for c in ''.join(op.split(' ')[3:]))
     common.compare(ctx, ops, impl, model, nontrivial=nontriv)
+    report_side_effects(ctx, ops, impl)
     # complete domains
     ctx.extra['images'] = {}
     def check_count(n, images, expected):
